@@ -4,10 +4,12 @@ From Verif Require Import Base Repo RepoProofs RepoProps.
 
 (* a refresh that cannot obtain an acceptable list (download refused / error body / garbage /
    truncated / bad signature / unknown signer / staging store cannot be created / insert
-   fails at step k) leaves the complete state — every entry's list, loaded flag, signer and
-   the disk — exactly as it was *)
+   fails at step k) leaves every entry — list, loaded flag, signer, locations — and the disk
+   exactly as they were (the only thing that may change is the in-memory note of which list failed
+   verification last, which no lookup reads) *)
 Theorem C08_failed_refresh_keeps : forall cfg ev f st,
-  (forall id e, In (id, e) (entries st) -> unacceptable cfg ev f e) -> refresh_all cfg ev f st = st.
+  (forall id e, In (id, e) (entries st) -> unacceptable cfg ev f e) ->
+  entries (refresh_all cfg ev f st) = entries st /\ disk (refresh_all cfg ev f st) = disk st.
 Proof. exact refresh_failed_keeps. Qed.
 Print Assumptions C08_failed_refresh_keeps.
 
@@ -36,6 +38,26 @@ Theorem C08_later_success : forall cfg ev id e l avail,
   e_list (fst (intake cfg ev Refresh id e avail NoFault)) = Some l.
 Proof. exact refresh_succeeds. Qed.
 Print Assumptions C08_later_success.
+
+(* ... also across a key rollover: after a refresh that failed verification and a handshake whose chain verifies
+   the list that failed, the entry knows the new signer and the next refresh takes the list in *)
+Theorem C08_later_success_after_rollover : forall cfg ev st id c e l loc rest,
+  r_sigmode cfg = SigVerify -> lookup id (marks st) = Some l -> lookup id (entries st) = Some e ->
+  e_loaded e = true -> e_locs e = loc :: rest -> ev loc = Serve l -> l_parse_ok l = true ->
+  verified l (c_chain c) = true ->
+  exists e1, lookup id (entries (resigned_state cfg st id c)) = Some e1 /\
+             e_signer e1 = Some (l_signer l) /\ e_list e1 = e_list e /\
+             e_list (fst (intake cfg ev Refresh id e1 (match e_signer e1 with Some s => [s] | None => [] end) NoFault)) = Some l.
+Proof. exact rollover_refresh. Qed.
+Print Assumptions C08_later_success_after_rollover.
+
+Example C08_rollover_history :
+  snd (run_steps {| r_storage := Disk; r_sigmode := SigVerify; r_fetch := Active; r_strict := true |} init_state
+        [SServe 1 (Serve l_old); SHandshake (cert_of 1 101); SServe 1 (Serve l_rolled); SRefresh NoFault;
+         SHandshake (cert_of 1 101); SHandshake (cert_of 1 102); SHandshake (cert_of 2 900); SRefresh NoFault;
+         SHandshake (cert_of 1 101); SHandshake (cert_of 1 102)]) =
+  [None; Some VRevoked; None; None; Some VRevoked; Some VAccept; Some VAccept; None; Some VAccept; Some VRevoked].
+Proof. exact rollover_example. Qed.
 
 (* observers: lookups are atomic with respect to the commit of a refresh (entry lock), so a
    sequence of lookups interleaved with one refresh sees the old list, then the new one *)
